@@ -686,13 +686,6 @@ class StateEngine(object):
                         {"StateMachineArn": state_machine_arn}
                     )
 
-                """
-                Tidy up self.branch_metadata for current execution_arn.
-                If ExecutionFailed we need to check for outstanding terminated
-                branch messages subsequently arriving.
-                """
-                if execution_arn in self.branch_metadata:
-                    self.check_pending_results(execution_arn)
             else:
                 opentracing.tracer.active_span.set_tag("status", "SUCCEEDED")
                 execution_detail["status"] = "SUCCEEDED"
@@ -730,6 +723,16 @@ class StateEngine(object):
         )
 
         self.broadcast_notification(execution_arn, execution_detail, context)
+
+        """
+        Tidy up self.branch_metadata for current execution_arn.
+        If ExecutionFailed we need to check for outstanding terminated
+        branch messages subsequently arriving. This acknowledges the held
+        branch events, so it must come after the terminal record has been
+        written and the terminal notification has been sent.
+        """
+        if execution_failed and execution_arn in self.branch_metadata:
+            self.check_pending_results(execution_arn)
 
     def update_execution_history(
             self, state_machine, execution_arn, update_type, details
